@@ -90,8 +90,14 @@ def _list_plot_item_labels(cp):
 
 def _item_value(cp, key):
   # Split at the last colon: section names may contain colons themselves ([Table-Form:NAME]), keys can't.
+  from ...config._common import ConfigurationException
+  if not ":" in key:
+    raise ConfigurationException("'{}' is not of the form SECTION_NAME:KEY".format(key))
   section, section_key = key.rsplit(":",1)
-  v = cp.raw_config_parser[section][section_key]
+  try:
+    v = cp.raw_config_parser[section][section_key]
+  except KeyError:
+    raise ConfigurationException("item '{}' not found in configuration file".format(key))
   return v 
 
 def action_list_items(cp):
